@@ -80,15 +80,17 @@ def _eval_one(wd, idx, cases, timeout, keep_raw):
     return vals
 
 
-def evaluate(wd, cases, timeout, batch=20000, parallel=6, keep_raw=False):
+def evaluate(wd, cases, timeout, batch=20000, parallel=8, keep_raw=False):
     """cases: list of JSON cases with ids; returns {id: printed value}, or
     {id: JSON text of the printed value} (memory: the workers parse it)."""
     if not cases:
         return {}
     wd.write("CoapWireEval.cfg", "")
-    # big cases (long byte strings) go last in their own batches
-    cases = sorted(cases, key=lambda c: len(json.dumps(c)) > 20000)
-    chunks = [cases[i : i + batch] for i in range(0, len(cases), batch)]
+    # big cases (65 kB byte strings) first, two per JVM: they take seconds each
+    big = [c for c in cases if sum(len(x) for x in c if isinstance(x, list)) > 20000 or any(len(o[1]) > 20000 for x in c if isinstance(x, list) for o in x if isinstance(o, list))]
+    bigids = set(c[1] for c in big)
+    small = [c for c in cases if c[1] not in bigids]
+    chunks = [big[i : i + 2] for i in range(0, len(big), 2)] + [small[i : i + batch] for i in range(0, len(small), batch)]
     out = {}
     with ThreadPoolExecutor(max_workers=parallel) as ex:
         for vals in ex.map(lambda t: _eval_one(wd, t[0], t[1], timeout, keep_raw), enumerate(chunks)):
